@@ -132,7 +132,12 @@ def gen_tree(rng, defined, depth=0):
     if depth < 4 and r < 0.25:
         return [gen_tree(rng, defined, depth + 1) for _ in range(rng.randint(0, 4))]
     if depth < 4 and r < 0.5:
-        return {rng.choice(['k', 'p', 'q', 'path', 'kw']) + str(i): gen_tree(rng, defined, depth + 1) for i in range(rng.randint(0, 4))}
+        d_ = {rng.choice(['k', 'p', 'q', 'path', 'kw']) + str(i): gen_tree(rng, defined, depth + 1) for i in range(rng.randint(0, 4))}
+        if rng.random() < 0.12:
+            # mappings that are dict SUBCLASSES (code-built configs, YAML with python tags) are mappings
+            import collections
+            d_ = collections.OrderedDict(d_) if rng.random() < 0.5 else collections.defaultdict(list, d_)
+        return d_
     if r < 0.85:
         return gen_string(rng, defined)
     return rng.choice([None, True, False, 0, 1, -7, 2 ** 70, 0.5, -0.0, 1e300])
